@@ -81,7 +81,14 @@ func ComputeEpochAttesterData(ctx context.Context, spec *common.Spec, epc *commo
 		if prevFlag&TIMELY_HEAD_FLAG != 0 {
 			out.PrevEpochUnslashedStake.HeadStake += effBal
 		}
-		if currEpochParticipation[vi]&TIMELY_TARGET_FLAG != 0 {
+	}
+	// get_unslashed_participating_indices(state, TIMELY_TARGET_FLAG_INDEX, current_epoch) ranges over the
+	// validators active in the CURRENT epoch (validators activated this epoch count, too)
+	for _, vi := range epc.CurrentEpoch.ActiveIndices {
+		if flats[vi].Slashed {
+			continue
+		}
+		if effBal := flats[vi].EffectiveBalance; currEpochParticipation[vi]&TIMELY_TARGET_FLAG != 0 {
 			out.CurrEpochUnslashedTargetStake += effBal
 		}
 	}
